@@ -78,6 +78,8 @@ sslKeys_t *load_keys(const KeySpec &ks, int *rc_out) {
         if (!done) { forged[forged.size() - 6] ^= 0x04; }
         id.cert = forged.data();
     }
+    Bytes chained;
+    if (have_id && ks.chain) { chained.assign(id.cert, id.cert + id.certLen); chained.insert(chained.end(), id.ca, id.ca + id.caLen); id.cert = chained.data(); id.certLen = chained.size(); }
     if (have_id || !cas.empty()) {
         rc = matrixSslLoadKeysMem(keys, have_id ? id.cert : nullptr, have_id ? (int32) id.certLen : 0,
                                   have_id ? id.key : nullptr, have_id ? (int32) id.keyLen : 0,
